@@ -326,7 +326,7 @@ class FrameField2DVertices(_BaseFrameField2DVertices):
         else: # No border -> eigensolve
             self.log("No border detected")
             self.log("Initial solve of linear system using an eigensolver")
-            self.var = inverse_power_method(lap,A)
+            self.var = inverse_power_method(lap, B=A)
             if self.n_smooth>0:
                 self.log(f"Solve linear system {self.n_smooth} times with diffusion")
                 alpha = self.smooth_attach_weight or self._compute_attach_weight(A) # Compute attach weight as smallest eigenvalue of the laplacian
